@@ -222,9 +222,13 @@ def get_folding_profile_section(
         str_ += "Could not determine folding profile\n"
     else:
         delta = round(Decimal(window[2]),2)
+        # the window limits are rounded like the pH values they are compared
+        # with (Decimal(0.3) is slightly smaller than Decimal('0.300'))
+        ph_first = round(Decimal(window[0]), 3)
+        ph_last = round(Decimal(window[1]), 3)
         for (ph, dg) in profile:
             ph = round(Decimal(ph), 3)
-            if ph >= window[0] and ph <= window[1]:
+            if ph >= ph_first and ph <= ph_last:
                 if (ph % delta < Decimal("0.05")
                         or ph % delta > delta - Decimal("0.05")):
                     str_ += "{0:>6.2f}{1:>10.2f}\n".format(ph, dg)
